@@ -150,7 +150,7 @@ def run_impl(case):
     try:
         try:
             a = build_alloc(case["cells"])
-        except (AssertionError, ZeroDivisionError) as e:
+        except Exception as e:      # rejected: the class of the exception is not compared
             return {"init": None, "err": type(e).__name__}
         obs = {"init": alloc_obs(a), "mbr": [bool(a.must_be_refined(float(t))) for t in case["ths"]], "steps": []}
         # does refining at t change the allocation?  (C12: must_be_refined <-> refine changes it)
@@ -160,8 +160,9 @@ def run_impl(case):
                 if len(a.allocations) > 100:
                     raise AssertionError("too large")
                 b = a.refine(float(t))
-                ch.append(len(b.allocations) != len(a.allocations) or alloc_obs(b)["cells"] != obs["init"]["cells"])
-            except (AssertionError, ZeroDivisionError) as e:
+                ch.append(len(b.allocations) != len(a.allocations) or
+                          not same_cells(alloc_obs(b)["cells"], obs["init"]["cells"]))
+            except Exception as e:
                 ch.append(type(e).__name__)
         obs["refine_changes"] = ch
         for o in case["ops"]:
@@ -177,7 +178,7 @@ def run_impl(case):
                     b = a.uniform_refinement_depth()
                 else:
                     b = a.griddify()
-            except (AssertionError, ZeroDivisionError, IndexError) as e:
+            except Exception as e:
                 obs["steps"].append({"before": before, "after": None, "err": type(e).__name__})
                 break
             after = alloc_obs(b)
@@ -191,8 +192,18 @@ def run_impl(case):
 
 
 # ---------------- Gallina ----------------
+def gname(s):
+    """a module name as a Coq string; names outside printable ASCII byte by byte (UTF-8), as the regex sees them"""
+    if all(32 <= ord(ch) < 127 for ch in s):
+        return gstr(s)
+    t = "Coq.Strings.String.EmptyString"
+    for b in reversed(s.encode("utf-8")):
+        t = f"(Coq.Strings.String.String (Coq.Strings.Ascii.ascii_of_nat {b}) {t})"
+    return t
+
+
 def gcell(c):
-    al = glist([f"({gstr(m)}, {gq(q)})" for m, q in c["alloc"]])
+    al = glist([f"({gname(m)}, {gq(q)})" for m, q in c["alloc"]])
     return f"(mkCell {fr.grect(c['rect'])} {al} {gnat(c['depth'])})"
 
 
@@ -214,7 +225,7 @@ def to_coq(case, obs):
     C0 = gcells(case["cells"])
     if obs["init"] is None:
         return f"match mk_allocation {aeps} {C0} with None => true | Some _ => false end"
-    parts = [f"opt_eqb cells_eqb (mk_allocation {aeps} {C0}) (Some {gcells(obs['init']['cells'])})"]
+    parts = [f"opt_eqb cells_same (mk_allocation {aeps} {C0}) (Some {gcells(obs['init']['cells'])})"]
 
     def areas(state, cells_term):
         out = []
@@ -236,11 +247,34 @@ def to_coq(case, obs):
             parts.append(f"match {call} with None => true | Some _ => false end")
         else:
             A = gcells(st["after"]["cells"])
-            parts.append(f"opt_eqb cells_eqb ({call}) (Some {A})")
+            parts.append(f"opt_eqb cells_same ({call}) (Some {gcells(sorted_cells(st['after']['cells']))})")
             parts += areas(st["after"], A)
             for t, b in zip(case["ths"], st["mbr_after"]):
                 parts.append(f"Bool.eqb (must_be_refined {gq(t)} {A}) {gbool(b)}")
     return " && ".join(f"({p})" for p in parts)
+
+
+# ---------------- comparison up to order ----------------
+# C02 / C12 constrain the SET of cells of an allocation (and the occupancy map as a mapping), not the position of a
+# cell in Allocation.allocations nor the order of the keys: model and implementation are compared as sets, and the
+# oracles find the pieces of a cell by geometry.
+def canon_cell(c):
+    r = c["rect"]
+    return (core.frac(r["cx"]), core.frac(r["cy"]), core.frac(r["w"]), core.frac(r["h"]), bool(r["fixed"]), bool(r["hard"]),
+            r["region"], r.get("loc", "NOPOLY"), c["depth"], tuple(sorted((m, core.frac(q)) for m, q in c["alloc"])))
+
+
+def canon_cells(cells):
+    return sorted(canon_cell(c) for c in cells)
+
+
+def same_cells(a, b):
+    return canon_cells(a) == canon_cells(b)
+
+
+def sorted_cells(cells):
+    """by centre (the order the Coq comparator sorts in: printing sorted makes its insertion sort linear)"""
+    return sorted(cells, key=lambda c: (core.frac(c["rect"]["cx"]), core.frac(c["rect"]["cy"])))
 
 
 # ---------------- helpers for the oracles ----------------
@@ -309,3 +343,403 @@ def dist_key(c):
 
 def nontrivial(c):
     return len(c["cells"]) >= 2
+
+
+# =====================================================================================
+# Histories on shared objects (model: coq/Alloc/Hist.v)
+#
+# A history case is {"cells": ..., "hops": [...], "eps", "aeps", "kind"}.  A step is one call of the public API on
+# one of the Allocation objects built so far (index taken modulo their number, cell index modulo the number of cells):
+#   ["apply", k, ["refine", t, levels] | ["uniform"] | ["griddify"]]   b = A[k].<op>(...); b is appended to A
+#   ["copy", k]                     b = Allocation([(c.rect, c.alloc, c.depth) for c in A[k].allocations]); appended
+#   ["setfixed", k, i, b]           A[k].allocations[i].rect.fixed = b   (public setter, used in place by the repository)
+#   ["mbr", k, t]  ["maxdepth", k]  ["numrect", k]  ["areas", k]           queries
+# The objects are never rebuilt between steps: what a later call returns on an object that was already queried, refined
+# or whose cells were flagged in place (possibly through another allocation sharing the Rectangle) is compared with the
+# pure model on the current values.  Which allocations share a Rectangle object is not part of C02 / C12: the flags
+# observed after a setfixed step are handed to the model, which only checks that they are a possible outcome (the
+# addressed cell carries the flag; a cell whose flag changed has the geometry of the addressed cell) and goes on from them.
+# =====================================================================================
+HEADER_H = """From FrameModel Require Import Num.QcTac Geometry.Rect Cases.Cmp Alloc.Alloc Alloc.Hist Cases.CmpAlloc.
+Open Scope Qc_scope."""
+
+MAX_CELLS = 140          # per allocation (the constructor's overlap check is quadratic)
+MAX_TOTAL = 520          # over all allocations of a history
+
+
+def cells_obs(a):
+    return [{"rect": fr.rect_obs(x.rect), "alloc": [[m, q] for m, q in x.alloc.items()], "depth": x.depth}
+            for x in a.allocations]
+
+
+def areas_obs(a):
+    mods = []
+    for x in a.allocations:
+        for m in x.alloc:
+            if m not in mods:
+                mods.append(m)
+    return [[m, a.area(m), [a.center(m).x, a.center(m).y]] for m in mods]
+
+
+def _predicted_size(a, o):
+    n = len(a.allocations)
+    if o[0] == "refine":
+        return n * 2 ** max(o[2], 0)
+    if o[0] == "uniform":
+        md = max(x.depth for x in a.allocations)
+        return sum(2 ** (md - x.depth) for x in a.allocations)
+    xs = {v for x in a.allocations for v in (x.rect.bounding_box.ll.x, x.rect.bounding_box.ur.x)}
+    ys = {v for x in a.allocations for v in (x.rect.bounding_box.ll.y, x.rect.bounding_box.ur.y)}
+    return min(n * 8, (len(xs) - 1) * (len(ys) - 1) + n)
+
+
+def run_hist_impl(case):
+    from frame.geometry.geometry import Rectangle
+    from frame.allocation.allocation import Allocation
+    Rectangle.undefine_epsilon()
+    Rectangle.set_epsilon(float(case["eps"]), float(case["aeps"]))
+    try:
+        from harness.props import alloc_variants
+        try:
+            A = [alloc_variants.build(case)]
+        except Exception as e:      # rejected: the class of the exception is not compared
+            return {"init": None, "err": type(e).__name__}
+        obs = {"init": {"cells": cells_obs(A[0])}, "steps": []}
+        for h in case["hops"]:
+            k = h[1] % len(A)
+            a = A[k]
+            src = cells_obs(a)
+            snap = [cells_obs(x) for x in A]
+            st = {"k": k, "src": src}
+            if h[0] == "apply":
+                o = h[2]
+                if _predicted_size(a, o) > MAX_CELLS or sum(len(x.allocations) for x in A) > MAX_TOTAL:
+                    break
+                try:
+                    if o[0] == "refine":
+                        b = a.refine(float(o[1]), o[2])
+                    elif o[0] == "uniform":
+                        b = a.uniform_refinement_depth()
+                    else:
+                        b = a.griddify()
+                except Exception as e:
+                    b = None
+                    st["err"] = type(e).__name__
+                st["new"] = None if b is None else cells_obs(b)
+                if b is not None:
+                    st["new_areas"] = areas_obs(b)
+                    A.append(b)
+            elif h[0] == "copy":
+                try:
+                    b = Allocation([(c.rect, c.alloc, c.depth) for c in a.allocations])
+                except Exception as e:
+                    b = None
+                    st["err"] = type(e).__name__
+                st["new"] = None if b is None else cells_obs(b)
+                if b is not None:
+                    A.append(b)
+            elif h[0] == "setfixed":
+                i = h[2] % len(a.allocations)
+                st["i"] = i
+                st["at"] = [a.allocations[i].rect.center.x, a.allocations[i].rect.center.y]
+                a.allocations[i].rect.fixed = bool(h[3])
+                st["fixed"] = [[[x.rect.center.x, x.rect.center.y] for x in y.allocations if x.rect.fixed] for y in A]
+            elif h[0] == "mbr":
+                st["val"] = bool(a.must_be_refined(float(h[2])))
+            elif h[0] == "maxdepth":
+                st["val"] = int(a.max_refinement_depth())
+            elif h[0] == "numrect":
+                st["val"] = int(a.num_rectangles)
+            elif h[0] == "areas":
+                st["val"] = areas_obs(a)
+            else:
+                raise ValueError(f"unknown history step {h[0]}")
+            # what the step did to the allocations that existed before it (flags aside for a setfixed step)
+            now = [cells_obs(x) for x in A[:len(snap)]]
+            if h[0] == "setfixed":
+                strip = lambda cs: [canon_cells([dict(c, rect=dict(c["rect"], fixed=False)) for c in x]) for x in cs]
+                st["others_unchanged"] = strip(now) == strip(snap)
+            else:
+                st["others_unchanged"] = [canon_cells(x) for x in now] == [canon_cells(x) for x in snap]
+            obs["steps"].append(st)
+        return obs
+    finally:
+        Rectangle.undefine_epsilon()
+
+
+def gfixed(fixed):
+    return glist([glist([f"({gq(x)}, {gq(y)})" for x, y in fl]) for fl in fixed])
+
+
+def ghop(h, st):
+    if h[0] == "apply":
+        return f"(HApply {gnat(h[1])} {gop(h[2])})"
+    if h[0] == "copy":
+        return f"(HCopy {gnat(h[1])})"
+    if h[0] == "setfixed":
+        return f"(HSetFixed {gnat(h[1])} {gq(st['at'][0])} {gq(st['at'][1])} {gbool(h[3])} {gfixed(st['fixed'])})"
+    if h[0] == "mbr":
+        return f"(HMbr {gnat(h[1])} {gq(h[2])})"
+    name = {"maxdepth": "HMaxDepth", "numrect": "HNumRect", "areas": "HAreas"}[h[0]]
+    return f"({name} {gnat(h[1])})"
+
+
+def gobs(h, st):
+    if h[0] in ("apply", "copy"):
+        return f"(ONew {gopt(None if st['new'] is None else gcells(sorted_cells(st['new'])))})"
+    if h[0] == "setfixed":
+        return f"(OFixed {gfixed(st['fixed'])})"
+    if h[0] == "mbr":
+        return f"(OBool {gbool(st['val'])})"
+    if h[0] in ("maxdepth", "numrect"):
+        return f"(ONat {gnat(st['val'])})"
+    return "(OAreas " + glist([f"({gstr(m)}, {gq(a)}, ({gq(c[0])}, {gq(c[1])}))" for m, a, c in st["val"]]) + ")"
+
+
+def hist_to_coq(case, obs):
+    aeps, eps, q = gq(case["aeps"]), gq(case["eps"]), gq(RATIO_F)
+    C0 = gcells(case["cells"])
+    if obs["init"] is None:
+        return f"match mk_allocation {aeps} {C0} with None => true | Some _ => false end"
+    scale = gq(max([abs(core.frac(c["rect"]["cx"])) + abs(core.frac(c["rect"]["cy"])) +
+                    core.frac(c["rect"]["w"]) + core.frac(c["rect"]["h"]) for c in obs["init"]["cells"]] + [1]))
+    hops = case["hops"][:len(obs["steps"])]
+    ops = glist([ghop(h, st) for h, st in zip(hops, obs["steps"])])
+    exp = glist([gobs(h, st) for h, st in zip(hops, obs["steps"])])
+    extra = []
+    for h, st in zip(hops, obs["steps"]):
+        if h[0] == "apply" and st.get("new") is not None:
+            # the new object's own area()/center() (computed by its constructor) against the model on its cells
+            A = gcells(st["new"])
+            extra.append(f"areas_same {scale} {A} " +
+                         glist([f"({gstr(m)}, {gq(a)}, ({gq(c[0])}, {gq(c[1])}))" for m, a, c in st["new_areas"]]))
+    parts = [f"opt_eqb cells_same (mk_allocation {aeps} {C0}) (Some {gcells(obs['init']['cells'])})",
+             f"match hist {eps} {aeps} {q} {C0} {ops} with Some l => list_eqb (hobs_eqb {scale}) l {exp} | None => false end"]
+    return " && ".join(f"({p})" for p in parts + extra)
+
+
+# ---------------- generator of histories ----------------
+def _gen_refine(rng, cells):
+    ratios = [a[1] for c in cells for a in c["alloc"]] or [F(1, 2)]
+    t = rng.choice([F(1), F(1), F(15, 16), F(1, 2), F(1, 4), F(0), rng.choice(ratios), rng.choice(ratios),
+                    1 - rng.choice(ratios), F(rng.randrange(0, 17), 16)])
+    return ["refine", t, rng.choice([1, 1, 1, 1, 2, 2, 3, 0])]
+
+
+def _gen_trans(rng, cells):
+    o = rng.choice(["refine", "refine", "refine", "uniform", "uniform", "griddify"])
+    return _gen_refine(rng, cells) if o == "refine" else [o]
+
+
+def _gen_query(rng, cells, k):
+    o = rng.choice(["mbr", "mbr", "maxdepth", "numrect", "areas"])
+    if o == "mbr":
+        return ["mbr", k, _gen_refine(rng, cells)[1]]
+    return [o, k]
+
+
+def _valid_areas(cells):
+    """every module has a non-zero allocated area (otherwise the constructor raises ZeroDivisionError)"""
+    return all(mod_area(cells, m) != 0 for m in {m for c in cells for m, _ in c["alloc"]})
+
+
+def gen_hist_case(rng, template=None):
+    """A history: allocation + calls on shared objects.  The motifs are chosen so that every kind of call is followed,
+    on the SAME object, by an in-place flag change and by every other kind of call (also with other arguments), and so
+    that flags are changed through a derived allocation sharing the cell."""
+    while True:
+        kind, cells = gen_alloc(rng)
+        if len(cells) <= 9 and (_valid_areas(cells) or rng.random() < 0.1):
+            break
+    if rng.random() < 0.6 and len(cells) > 1:       # non-uniform depths make uniform_refinement_depth do something
+        for c in cells:
+            c["depth"] = rng.choice([0, 0, 1, 1, 2])
+    n = [1]          # number of allocations (a refine with levels=0 raises and adds none)
+
+    def pick_k():
+        return rng.choice([0, 0, n[0] - 1, n[0] - 1, rng.randrange(n[0])])
+
+    def trans(k, o=None):
+        o = o or _gen_trans(rng, cells)
+        if not (o[0] == "refine" and o[2] == 0):
+            n[0] += 1
+        return ["apply", k, o]
+
+    def setfixed(k, b=None):
+        return ["setfixed", k, rng.randrange(0, 64), rng.random() < 0.75 if b is None else b]
+
+    hops = []
+    motifs = ["stale", "stale", "stale", "shared", "shared", "repeat", "flipflop", "chain", "copy", "random"]
+    if template is not None:
+        motifs = [template]
+    for _ in range(rng.choice([1, 1, 2, 2, 3])):
+        m = rng.choice(motifs)
+        k = pick_k()
+        if m == "stale":
+            # any call, then flag changes on the same object, then the same call again or any other call
+            # (whatever the first call remembered about the object would now be stale)
+            first = _gen_query(rng, cells, k) if rng.random() < 0.4 else trans(k)
+            hops.append(first)
+            for _ in range(rng.choice([1, 2, 2, 3])):
+                hops.append(setfixed(k))
+            r = rng.random()
+            if r < 0.45:
+                if first[0] == "apply":
+                    hops.append(trans(k, list(first[2])))
+                elif first[0] == "mbr":
+                    hops += [list(first), trans(k, ["refine", first[2], rng.choice([1, 1, 2])])]
+                else:
+                    hops += [list(first), trans(k)]
+            elif r < 0.6:
+                hops.append(_gen_query(rng, cells, k))
+            else:
+                if rng.random() < 0.3:
+                    hops.append(_gen_query(rng, cells, k))
+                hops.append(trans(k))
+        elif m == "shared":
+            # derive b from a, flag a cell through b (or through a), then call both
+            hops.append(trans(k))
+            j = n[0] - 1
+            if rng.random() < 0.5:
+                hops.append(_gen_query(rng, cells, j))
+            hops.append(setfixed(rng.choice([j, j, k])))
+            order = [k, j] if rng.random() < 0.5 else [j, k]
+            for x in order:
+                hops.append(trans(x) if rng.random() < 0.7 else _gen_query(rng, cells, x))
+        elif m == "repeat":
+            # the same object called repeatedly with other arguments; must_be_refined next to the refine it predicts
+            o1, o2 = _gen_refine(rng, cells), _gen_refine(rng, cells)
+            seq = [["mbr", k, o1[1]], trans(k, o1), ["mbr", k, o2[1]], trans(k, o2), ["mbr", k, o1[1]], trans(k, list(o1))]
+            if rng.random() < 0.5:
+                seq.insert(rng.randrange(1, len(seq)), setfixed(k))
+            hops += seq[:rng.choice([2, 4, 4, 6, 7])]
+        elif m == "flipflop":
+            i = rng.randrange(0, 64)
+            o = _gen_trans(rng, cells)
+            hops += [["setfixed", k, i, True], trans(k, list(o)), ["setfixed", k, i, False], trans(k, list(o))]
+            if rng.random() < 0.5:
+                hops += [["setfixed", k, i, True], trans(k, list(o))]
+        elif m == "chain":
+            for _ in range(rng.choice([2, 3])):
+                hops.append(trans(n[0] - 1))
+                if rng.random() < 0.4:
+                    hops.append(setfixed(n[0] - 1))
+        elif m == "copy":
+            hops.append(["copy", k])
+            n[0] += 1
+            hops.append(setfixed(rng.choice([k, n[0] - 1])))
+            hops.append(trans(k))
+            hops.append(trans(n[0] - 2) if rng.random() < 0.5 else _gen_query(rng, cells, n[0] - 2))
+        else:
+            for _ in range(rng.choice([2, 3, 4])):
+                r = rng.random()
+                hops.append(trans(pick_k()) if r < 0.4 else setfixed(pick_k()) if r < 0.7 else
+                            _gen_query(rng, cells, pick_k()))
+    hops = hops[:12]
+    return {"kind": "hist-" + kind, "cells": cells, "hops": hops,
+            "eps": F(1, 2 ** 20), "aeps": rng.choice([F(1, 2 ** 10), F(0), F(1, 4)])}
+
+
+QKINDS = ["mbr", "refine", "uniform", "griddify", "maxdepth", "numrect", "areas", "copy", "derived"]
+TKINDS = ["refine", "uniform", "griddify", "mbr"]
+
+
+def gen_hist_template(rng, idx):
+    """Systematic part: for every kind of first call Q and every kind of later call T, the history
+    Q(A0); A0.cell[i].fixed = True; T(A0) [; fixed = False; T(A0)] where cell i is one that the later call would cut
+    (not fixed, occupied, shallower than the deepest cell).  'derived' flags the cell through an allocation derived
+    from A0 that shares the Rectangle object."""
+    qk = QKINDS[idx % len(QKINDS)]
+    tk = TKINDS[(idx // len(QKINDS)) % len(TKINDS)]
+    while True:
+        kind, cells = gen_alloc(rng)
+        if not 2 <= len(cells) <= 8 or not _valid_areas(cells):
+            continue
+        for c in cells:
+            c["depth"] = rng.choice([0, 0, 1, 2])
+        md = max(c["depth"] for c in cells)
+        good = [i for i, c in enumerate(cells) if not c["rect"]["fixed"] and c["alloc"] and c["depth"] < md
+                and max(q for _, q in c["alloc"]) > 0]
+        if good:
+            break
+    i = rng.choice(good)
+    tmax = max(q for _, q in cells[i]["alloc"])
+    t = rng.choice([F(1), tmax])
+    lv = rng.choice([1, 1, 2])
+    first = {"mbr": [["mbr", 0, t]], "refine": [["apply", 0, ["refine", t, lv]]],
+             "uniform": [["apply", 0, ["uniform"]]], "griddify": [["apply", 0, ["griddify"]]],
+             "maxdepth": [["maxdepth", 0]], "numrect": [["numrect", 0]], "areas": [["areas", 0]],
+             "copy": [["copy", 0]],
+             "derived": [["apply", 0, ["refine", F(0), 1]]]}[qk]
+    later = {"refine": ["apply", 0, ["refine", t, lv]], "uniform": ["apply", 0, ["uniform"]],
+             "griddify": ["apply", 0, ["griddify"]], "mbr": ["mbr", 0, t]}[tk]
+    via = 1 if qk in ("copy", "derived") else 0      # the allocation through which the flag is set
+    j = i
+    if qk == "derived":      # refine(0) cuts only occupied cells whose ratios are all 0: cell i is handed over as it is
+        j = i + sum(1 for c in cells[:i] if splittable(c, F(0)))
+    hops = first + [["setfixed", via, j, True], list(later)]
+    if tk == "mbr":
+        hops.append(["apply", 0, ["refine", t, lv]])
+    if rng.random() < 0.5:
+        hops += [["setfixed", via, j, False], list(later)]
+        if tk == "mbr":
+            hops.append(["apply", 0, ["refine", t, lv]])
+    return {"kind": f"tmpl-{qk}-{tk}", "cells": cells, "hops": hops,
+            "eps": F(1, 2 ** 20), "aeps": rng.choice([F(1, 2 ** 10), F(0), F(1, 4)])}
+
+
+def hist_dist_key(c):
+    """layout / template kind (the variations - input form, names, depths - are counted in extra['variants'])"""
+    return "hist/" + c["kind"].split("/")[0]
+
+
+def variant_counts(cases):
+    out = {}
+    for c in cases:
+        if is_hist(c):
+            tags = c["kind"].split("/")[1].split("+") if "/" in c["kind"] else ["plain"]
+            for t in tags + ["form:" + c.get("form", "objects")]:
+                out[t] = out.get(t, 0) + 1
+            for h in c["hops"]:
+                k = "step:" + (h[2][0] if h[0] == "apply" else h[0])
+                out[k] = out.get(k, 0) + 1
+    return out
+
+
+def hist_shrink(case):
+    cells, hops = case["cells"], case["hops"]
+    for i in range(len(hops) - 1, -1, -1):
+        yield dict(case, hops=hops[:i] + hops[i + 1:])
+    for i in range(len(cells)):
+        if len(cells) > 1:
+            yield dict(case, cells=cells[:i] + cells[i + 1:])
+    for i, h in enumerate(hops):
+        if h[0] == "apply" and h[2][0] == "refine" and h[2][2] > 1:
+            yield dict(case, hops=hops[:i] + [["apply", h[1], ["refine", h[2][1], 1]]] + hops[i + 1:])
+        if h[0] == "setfixed" and h[2] >= len(cells):
+            yield dict(case, hops=hops[:i] + [["setfixed", h[1], h[2] % max(len(cells), 1), h[3]]] + hops[i + 1:])
+    for i, c in enumerate(cells):
+        if c["depth"] > 0:
+            yield dict(case, cells=cells[:i] + [dict(c, depth=c["depth"] - 1)] + cells[i + 1:])
+        if len(c["alloc"]) > 1:
+            yield dict(case, cells=cells[:i] + [dict(c, alloc=c["alloc"][:1])] + cells[i + 1:])
+
+
+def is_hist(case):
+    return "hops" in case
+
+
+def run_any(case):
+    return run_hist_impl(case) if is_hist(case) else run_impl(case)
+
+
+def any_to_coq(case, obs):
+    return hist_to_coq(case, obs) if is_hist(case) else to_coq(case, obs)
+
+
+def any_shrink(case):
+    return hist_shrink(case) if is_hist(case) else shrink(case)
+
+
+def any_dist_key(c):
+    return hist_dist_key(c) if is_hist(c) else dist_key(c)
